@@ -318,6 +318,9 @@ func searchIndex(p *thrift.BinaryProtocol, id int, isList bool) (tt thrift.Type,
 	if err != nil {
 		return 0, start, errNode(meta.ErrRead, "", err)
 	}
+	if id < 0 {
+		return 0, start, errNode(meta.ErrInvalidParam, "negative index", nil)
+	}
 	if id >= size {
 		if isList {
 			return thrift.LIST, p.Read, errNotFound
